@@ -214,17 +214,11 @@ func runC15(c *Ctx) {
 				return
 			}
 			// background invocations are not covered by the marker: wait for them
-			dl := time.Now().Add(WaitLong)
-			for {
+			waitUntil(func() bool {
 				mu.Lock()
-				n := len(invs)
-				mu.Unlock()
-				if n >= total || time.Now().After(dl) {
-					break
-				}
-				runtimeGosched()
-				time.Sleep(20 * time.Microsecond)
-			}
+				defer mu.Unlock()
+				return len(invs) >= total
+			})
 			mu.Lock()
 			got := append([]*c15Inv(nil), invs...)
 			mo := maxOpen
